@@ -16,6 +16,8 @@ struct Case {
     entries: Vec<(&'static str, bool)>,
     desc_parser_ok: bool,
     ms_consensus_parser_ok: bool,
+    /// 1 = the consensus parameters reject only because of or_i / d: in a pre-segwit context
+    consensus_reject_if: bool,
     /// validate() with only `allow_sigless_branch = false` on top of MAX
     sigless_rejected: bool,
     /// (limit kind 0 ops / 1 witness items / 2 script size, limit, accepted, figure)
@@ -94,6 +96,7 @@ fn gen_ctx<Ctx: CtxInfo>(fix: &Fix, tier: &str, seed: u64, maxn: usize, cap: usi
         }
         let (entries, desc_ok) = ctx_entries::<Ctx>(fix, &ms, &s);
         let cons_ok = Miniscript::<Pk, Ctx>::from_str_with_validation_params(&s, &Ctx::CONSENSUS).is_ok();
+        let consensus_reject_if = matches!(ms.validate(&Ctx::CONSENSUS), Err(miniscript::ValidationError::IllegalOrI) | Err(miniscript::ValidationError::IllegalDupIf));
         let mut sigless = ValidationParams::MAX;
         sigless.allow_sigless_branch = false;
         let sigless_rejected = ms.validate(&sigless).is_err();
@@ -140,7 +143,7 @@ fn gen_ctx<Ctx: CtxInfo>(fix: &Fix, tier: &str, seed: u64, maxn: usize, cap: usi
             samples.push(format!("{{\"term\": \"{}\", \"ctx\": {}, \"type\": \"{}\", \"accepted_by\": [{}]}}", json_escape(&g.name), g.ctx, g.ty_str, entries.iter().filter(|x| x.1).map(|x| format!("\"{}\"", x.0)).collect::<Vec<_>>().join(",")));
         }
         names.push(g.name.clone());
-        cases.push(Case { shape: idx, entries, desc_parser_ok: desc_ok, ms_consensus_parser_ok: cons_ok, sigless_rejected, limits, dup_expected, dup_rejected });
+        cases.push(Case { shape: idx, entries, desc_parser_ok: desc_ok, ms_consensus_parser_ok: cons_ok, consensus_reject_if, sigless_rejected, limits, dup_expected, dup_rejected });
         let _ = (g.base == spec::B,);
     }
 }
@@ -163,7 +166,7 @@ pub fn generate(fix: &Fix, tier: &str, seed: u64, out_dir: &str) {
         for (n, a) in &c.entries {
             let _ = write!(src, "({:?},{}),", n, a);
         }
-        let _ = write!(src, "],desc_parser_ok:{},ms_consensus_parser_ok:{},sigless_rejected:{},limits:&[", c.desc_parser_ok, c.ms_consensus_parser_ok, c.sigless_rejected);
+        let _ = write!(src, "],desc_parser_ok:{},ms_consensus_parser_ok:{},consensus_reject_if:{},sigless_rejected:{},limits:&[", c.desc_parser_ok, c.ms_consensus_parser_ok, c.consensus_reject_if, c.sigless_rejected);
         for l in &c.limits {
             let _ = write!(src, "({},{},{},{}),", l.0, l.1, l.2, l.3);
         }
